@@ -159,6 +159,7 @@ class SyncBSE:
             if A['n'] < s.cfg['max_interacts']:
                 for o in s.cfg['outcomes']: acts.append(('interact', o))
             acts.append(('drop_wrapper',))
+            if s.cfg.get('unwinding_drop', True): acts.append(('drop_wrapper', 'unwinding'))      # the owner of the wrapper panics: dropped during unwinding
             acts.append(('is_poisoned',))
         return acts
 
@@ -218,7 +219,10 @@ class SyncBSE:
             return outs
         if a[0] == 'drop_wrapper':
             w = st.heap.pop(st.gget('wrapper')); st.gset('wrapper', None); st.gset('phase', 'dropped')
+            unw = len(a) > 1 and a[1] == 'unwinding'
+            if unw: st.threads['A'].panicking = True          # std::thread::panicking() is true while the wrapper's Drop runs
             for st1, r in W.drop(st, 'A', [w]):
+                if unw: st1.threads['A'].panicking = False
                 st1.gset('last', {'act': a, 'res': r}); outs.append(st1)
             return outs
         if a[0] == 'is_poisoned':
